@@ -1,11 +1,13 @@
 /-
   Property C17 — format name, version and mode are gated on both sides; no
   cross-mode confusion.  Statements only; proofs in Saltpack/Proofs/NoPanic.lean
-  (gates), Receiver.lean (domain separation), RoundTripSig.lean (detached).
+  (gates), Receiver.lean (domain separation), RoundTripSig.lean (detached),
+  ModeSeparation.lean (transplanted / edited headers, labels).
 -/
 import Saltpack.Proofs.NoPanic
 import Saltpack.Proofs.Receiver
 import Saltpack.Proofs.RoundTripSig
+import Saltpack.Proofs.ModeSeparation
 
 namespace Saltpack.Props.C17
 open Saltpack Saltpack.Proofs
@@ -91,6 +93,154 @@ theorem C17_attached_vs_detached (P : Prims) (valid : Validator) (kr : Keyring)
   cases hh
   exact modes_distinct.2.2.2.1 (a.symm.trans b)
 
+/-! ## editing or transplanting headers
+
+  `headerTag hb` is the (mode, version) that header BYTES announce: elements 2
+  and 1 of the header array, read exactly as every typed view reads them
+  (`viewEncHeader`, `viewSigHeader`) — so it does not depend on which receiver
+  looks at the bytes.  Hypotheses of the theorems below: `hhon` — `hb` are the
+  header bytes of some message that announces mode `m`, version `ver` (for an
+  honest sender: `C17_honest_header_tag`); `hrd` — the receiver read the header
+  bytes `hb'` and go-codec decoded them into the typed header `h'`
+  (`Wire.decodeHeader` = `decodeFromBytes`; holds for whatever `Wire.split…`
+  yields, `Proofs.split_header_decoded`).  Conclusion: a receiver that released
+  anything or accepted did so for header bytes `hb'` DIFFERENT from `hb`
+  whenever `hb` announces another mode or a version it does not admit; the
+  header hash `P.hash hb'` its MAC keys / signature inputs start from
+  (`C17_receivers_bind_header_hash`) then differs from `P.hash hb`, or the two
+  explicit strings `hb'`, `hb` are a SHA-512 collision.  No forgery/`Break`
+  predicate is involved. -/
+
+/-- editing the mode or the version in a header changes the header bytes
+    (whatever else is edited, and for both header families) -/
+theorem C17_edit_changes_bytes (hb : Bytes) (m : Int) (ver : Version) (hhon : headerTag hb = some (m, ver)) (hb' : Bytes) :
+    (∀ h' : EncHeader, Wire.decodeHeader viewEncHeader hb' = .ok (.ok hb' h') → (h'.typ, h'.version) ≠ (m, ver) → hb' ≠ hb) ∧
+    (∀ h' : SigHeader, Wire.decodeHeader viewSigHeader hb' = .ok (.ok hb' h') → (h'.typ, h'.version) ≠ (m, ver) → hb' ≠ hb) :=
+  ⟨fun h' hrd hne => transplant_changes_bytes_enc hb m ver hhon hb' h' hrd hne,
+   fun h' hrd hne => transplant_changes_bytes_sig hb m ver hhon hb' h' hrd hne⟩
+
+theorem C17_decrypt_no_transplant (P : Prims) (valid : Validator) (kr : Keyring)
+    (hb : Bytes) (m : Int) (ver : Version) (hhon : headerTag hb = some (m, ver))
+    (hb' : Bytes) (h' : EncHeader)
+    (hrd : Wire.decodeHeader viewEncHeader hb' = .ok (.ok hb' h'))
+    (ps : PStream EncBlock)
+    (hacc : (Decrypt.openStream P valid kr (.ok hb' h') ps).released ≠ [] ∨
+            (Decrypt.openStream P valid kr (.ok hb' h') ps).err = none)
+    (hother : m ≠ mtEncryption ∨ valid ver = false) :
+    hb' ≠ hb ∧ (P.hash hb' ≠ P.hash hb ∨ (hb' ≠ hb ∧ P.hash hb' = P.hash hb)) :=
+  decrypt_no_transplant P valid kr hb m ver hhon hb' h' hrd ps hacc hother
+
+theorem C17_signcrypt_no_transplant (P : Prims) (kr : Keyring) (res : Signcrypt.Resolver)
+    (hb : Bytes) (m : Int) (ver : Version) (hhon : headerTag hb = some (m, ver))
+    (hb' : Bytes) (h' : EncHeader)
+    (hrd : Wire.decodeHeader viewEncHeader hb' = .ok (.ok hb' h'))
+    (ps : PStream SigncryptBlock)
+    (hacc : (Signcrypt.openStream P kr res (.ok hb' h') ps).released ≠ [] ∨
+            (Signcrypt.openStream P kr res (.ok hb' h') ps).err = none)
+    (hother : m ≠ mtSigncryption ∨ ver.major ≠ 2) :
+    hb' ≠ hb ∧ (P.hash hb' ≠ P.hash hb ∨ (hb' ≠ hb ∧ P.hash hb' = P.hash hb)) :=
+  signcrypt_no_transplant P kr res hb m ver hhon hb' h' hrd ps hacc hother
+
+theorem C17_verify_no_transplant (P : Prims) (valid : Validator) (kr : Keyring)
+    (hb : Bytes) (m : Int) (ver : Version) (hhon : headerTag hb = some (m, ver))
+    (hb' : Bytes) (h' : SigHeader)
+    (hrd : Wire.decodeHeader viewSigHeader hb' = .ok (.ok hb' h'))
+    (ps : PStream SigBlock)
+    (hacc : (Sign.verifyStream P valid kr (.ok hb' h') ps).released ≠ [] ∨
+            (Sign.verifyStream P valid kr (.ok hb' h') ps).err = none)
+    (hother : m ≠ mtAttached ∨ valid ver = false) :
+    hb' ≠ hb ∧ (P.hash hb' ≠ P.hash hb ∨ (hb' ≠ hb ∧ P.hash hb' = P.hash hb)) :=
+  verify_no_transplant P valid kr hb m ver hhon hb' h' hrd ps hacc hother
+
+theorem C17_detached_no_transplant (P : Prims) (valid : Validator) (kr : Keyring)
+    (hb : Bytes) (m : Int) (ver : Version) (hhon : headerTag hb = some (m, ver))
+    (hb' : Bytes) (h' : SigHeader)
+    (hrd : Wire.decodeHeader viewSigHeader hb' = .ok (.ok hb' h'))
+    (sr : Sign.SigRead) (msg k : Bytes)
+    (hacc : Sign.verifyDetached P valid kr (.ok hb' h') sr msg = .ok k)
+    (hother : m ≠ mtDetached ∨ valid ver = false) :
+    hb' ≠ hb ∧ (P.hash hb' ≠ P.hash hb ∨ (hb' ≠ hb ∧ P.hash hb' = P.hash hb)) :=
+  detached_no_transplant P valid kr hb m ver hhon hb' h' hrd sr msg k hacc hother
+
+/-- between two ADMITTED versions too: a decryptor that accepted `hb'` works
+    with the version that `hb'` announces; if that is not the version `hb`
+    announces, the bytes differ (a V1 message relabelled V2, or vice versa, is a
+    different header with a different header hash) -/
+theorem C17_decrypt_version_bound (P : Prims) (valid : Validator) (kr : Keyring)
+    (hb : Bytes) (m : Int) (ver : Version) (hhon : headerTag hb = some (m, ver))
+    (hb' : Bytes) (h' : EncHeader)
+    (hrd : Wire.decodeHeader viewEncHeader hb' = .ok (.ok hb' h'))
+    (log : List KeyCall) (st : Decrypt.State)
+    (hok : Decrypt.processHeader P valid kr (P.hash hb') h' = (log, .ok st))
+    (hver : st.version ≠ ver) : hb' ≠ hb :=
+  decrypt_version_bound P valid kr hb m ver hhon hb' h' hrd log st hok hver
+
+/-- which hash the receivers bind: the state every MAC key / payload hash /
+    signature input is computed from holds the hash of exactly the header bytes
+    that were read -/
+theorem C17_receivers_bind_header_hash (P : Prims) (valid : Validator) (kr : Keyring) (res : Signcrypt.Resolver)
+    (hb : Bytes) :
+    (∀ (h : EncHeader) (ps : PStream EncBlock),
+      ((Decrypt.openStream P valid kr (.ok hb h) ps).released ≠ [] ∨ (Decrypt.openStream P valid kr (.ok hb h) ps).err = none) →
+      ∃ log st, Decrypt.processHeader P valid kr (P.hash hb) h = (log, .ok st) ∧ st.headerHash = P.hash hb ∧
+        st.version = h.version ∧
+        (Decrypt.openStream P valid kr (.ok hb h) ps).released = (Decrypt.run P st ps.items ps.tail 1).bytes ∧
+        (Decrypt.openStream P valid kr (.ok hb h) ps).err = (Decrypt.run P st ps.items ps.tail 1).err) ∧
+    (∀ (h : EncHeader) (ps : PStream SigncryptBlock),
+      ((Signcrypt.openStream P kr res (.ok hb h) ps).released ≠ [] ∨ (Signcrypt.openStream P kr res (.ok hb h) ps).err = none) →
+      ∃ log st, Signcrypt.processHeader P kr res (P.hash hb) h = (log, .ok st) ∧ st.headerHash = P.hash hb ∧
+        (Signcrypt.openStream P kr res (.ok hb h) ps).released = (Signcrypt.run P st ps.items ps.tail 1).bytes ∧
+        (Signcrypt.openStream P kr res (.ok hb h) ps).err = (Signcrypt.run P st ps.items ps.tail 1).err) ∧
+    (∀ (h : SigHeader) (ps : PStream SigBlock),
+      ((Sign.verifyStream P valid kr (.ok hb h) ps).released ≠ [] ∨ (Sign.verifyStream P valid kr (.ok hb h) ps).err = none) →
+      ∃ pk, kr.lookupSigningPublicKey h.senderPublic = some pk ∧
+        (Sign.verifyStream P valid kr (.ok hb h) ps).released = (Sign.run P ⟨h.version, P.hash hb, pk⟩ ps.items ps.tail 1).bytes ∧
+        (Sign.verifyStream P valid kr (.ok hb h) ps).err = (Sign.run P ⟨h.version, P.hash hb, pk⟩ ps.items ps.tail 1).err) :=
+  ⟨fun h ps hacc => dec_open_binds_hash P valid kr hb h ps hacc,
+   fun h ps hacc => sc_open_binds_hash P kr res hb h ps hacc,
+   fun h ps hacc => let ⟨pk, h1, _, h3, h4⟩ := ver_binds_hash P valid kr hb h ps hacc; ⟨pk, h1, h3, h4⟩⟩
+
+/-- what an honest sender's header bytes announce: its own mode and the
+    requested version (`ValWF`: field lengths < 2³², integers in the msgpack
+    range — what `Msgpack.encode` round-trips on) -/
+theorem C17_honest_header_tag (P : Prims) :
+    (∀ bs v sender rs eph pk pt (h : EncHeader) hb blks,
+      Encrypt.sealPackets P bs v sender rs eph pk pt = .ok (h, hb, blks) → ValWF h.toVal →
+      headerTag hb = some (mtEncryption, v)) ∧
+    (∀ bs sender rs eph pk pt (h : EncHeader) hb blks,
+      Signcrypt.sealPackets P bs sender rs eph pk pt = .ok (h, hb, blks) → ValWF h.toVal →
+      headerTag hb = some (mtSigncryption, v2)) ∧
+    (∀ bs v signer nonce msg (h : SigHeader) hb blks,
+      Sign.attachedPackets P bs v signer nonce msg = .ok (h, hb, blks) → ValWF h.toVal →
+      headerTag hb = some (mtAttached, v)) ∧
+    (∀ v signer nonce msg out, Sign.detachedWith P v signer nonce msg = .ok out →
+      (P.sigPub signer).length < 2 ^ 32 → nonce.length < 2 ^ 32 →
+      ∃ hb rest, out = headerPacket hb ++ rest ∧ headerTag hb = some (mtDetached, v)) :=
+  ⟨fun bs v sender rs eph pk pt h hb blks hs hwf => seal_header_tag P bs v sender rs eph pk pt h hb blks hs hwf,
+   fun bs sender rs eph pk pt h hb blks hs hwf => signcrypt_header_tag P bs sender rs eph pk pt h hb blks hs hwf,
+   fun bs v signer nonce msg h hb blks hs hwf => sign_header_tag P bs v signer nonce msg h hb blks hs hwf,
+   fun v signer nonce msg out hs hpk hn => detached_header_tag P v signer nonce msg out hs hpk hn⟩
+
+/-- **Domain separation of the signature inputs, all three pairs**: whatever
+    follows the domain strings, an attached-mode input, a detached-mode input
+    and a signcryption input are pairwise different byte strings — a signature
+    made in one signing mode is a signature on a different message than any
+    input another mode verifies… -/
+theorem C17_sig_inputs_differ (x y : Bytes) :
+    Gen.c_sp_signatureAttachedString ++ x ≠ Gen.c_sp_signatureDetachedString ++ y ∧
+    Gen.c_sp_signatureAttachedString ++ x ≠ Gen.c_sp_signatureEncryptedString ++ y ∧
+    Gen.c_sp_signatureDetachedString ++ x ≠ Gen.c_sp_signatureEncryptedString ++ y :=
+  sig_inputs_differ x y
+
+/-- …for the model's own input functions (any header hashes, chunks, flags) -/
+theorem C17_model_sig_inputs_differ (P : Prims) (v : Version) (hh hh' hh'' chunk msg nonce chunk' : Bytes)
+    (seqno : Nat) (f f' : Bool) (a : Bytes)
+    (ha : attachedSignatureInput P v hh chunk seqno f = .ok a) :
+    a ≠ detachedSignatureInput P hh' msg ∧
+    a ≠ signcryptionSignatureInput P hh'' nonce f' chunk' ∧
+    detachedSignatureInput P hh' msg ≠ signcryptionSignatureInput P hh'' nonce f' chunk' :=
+  model_sig_inputs_differ P v hh hh' hh'' chunk msg nonce chunk' seqno f f' a ha
+
 /-! ## sending side -/
 
 /-- exactly 1.0 and 2.0 are implemented -/
@@ -124,7 +274,29 @@ theorem C17_sign_labels (P : Prims) (bs : Nat) (v : Version) (signer nonce msg :
     h.formatName = Gen.c_sp_FormatName ∧ h.version = v ∧ (v = v1 ∨ v = v2) ∧ h.typ = mtAttached :=
   sign_labels P bs v signer nonce msg h hb blks hs
 
+/-- a detached signature starts with a header labelled saltpack / the requested
+    known version / detached mode, followed by the signature over exactly the
+    detached-mode input -/
+theorem C17_detached_label (P : Prims) (v : Version) (signer nonce msg out : Bytes)
+    (hs : Sign.detachedWith P v signer nonce msg = .ok out) :
+    ∃ h : SigHeader, h = Sign.header v (P.sigPub signer) mtDetached nonce ∧
+      out = headerPacket (Msgpack.encode h.toVal) ++
+            Msgpack.encBin (P.sign signer (detachedSignatureInput P (P.hash (Msgpack.encode h.toVal)) msg)) ∧
+      h.formatName = Gen.c_sp_FormatName ∧ h.version = v ∧ (v = v1 ∨ v = v2) ∧ h.typ = mtDetached :=
+  detached_labels P v signer nonce msg out hs
+
+/-- a signcrypted message is labelled saltpack / 2.0 / signcryption -/
+theorem C17_signcrypt_label (P : Prims) (bs : Nat) (sender : Option Bytes) (rs : List Signcrypt.Recipient)
+    (eph pk pt : Bytes) (h : EncHeader) (hb : Bytes) (blks : List SigncryptBlock)
+    (hs : Signcrypt.sealPackets P bs sender rs eph pk pt = .ok (h, hb, blks)) :
+    h.formatName = Gen.c_sp_FormatName ∧ h.version = v2 ∧ h.typ = mtSigncryption ∧
+    hb = Msgpack.encode h.toVal :=
+  signcrypt_labels P bs sender rs eph pk pt h hb blks hs
+
 /-! ## non-vacuity: version 3.0 and 2.1 are unknown, 1.0 and 2.0 known -/
 example : knownVersion ⟨3, 0⟩ = false ∧ knownVersion ⟨2, 1⟩ = false ∧ knownVersion v1 = true ∧ knownVersion v2 = true := by decide
+
+-- the tag of a concrete attached-signature header (V2), read off its bytes
+example : headerTag (Msgpack.encode (Sign.header v2 [1] mtAttached [2]).toVal) = some (mtAttached, v2) := by decide
 
 end Saltpack.Props.C17
